@@ -149,7 +149,8 @@ func vhAfterMarshal(s *Stack, err error, id string) {
 	verifAssert(s.Kind() != badStack, id+"/kind")
 }
 
-// p: n entries, spread (1: Marshal(in...), 0: Marshal(in)), receiver (0 zero, 1 initialised)
+// p: n entries, spread (1: Marshal(in...), 0: Marshal(in)), receiver (0 zero, 1
+// initialised, 2 initialised with mutex after installing and removing a marshaler)
 func VH_C16_Flat(p []int) {
 	n := p[0]
 	in := make([]any, n)
@@ -169,6 +170,18 @@ func VH_C16_Flat(p []int) {
 		s = pre.s
 		before = 1
 		capped = pre.cfg.cap != 0 && pre.cfg.cap == 2
+	}
+	if p[2] == 2 {
+		// an initialised, mutex-enabled receiver on which a custom marshaler
+		// was installed and removed again (both documented forms)
+		s = Or().Push("first").SetMutex()
+		s.SetMarshaler(func(...any) error { return errorf("custom") })
+		if nondetChoice(2) == 0 {
+			s.SetMarshaler()
+		} else {
+			s.SetMarshaler(nil)
+		}
+		before = 1
 	}
 	var err error
 	if p[1] == 1 {
@@ -199,12 +212,27 @@ func VH_C16_Flat(p []int) {
 			}
 		}
 	}
-	if p[2] == 1 {
+	if p[2] >= 1 {
 		if err == nil && !capped {
 			verifAssert(s.Len() == before+1 || s.Len() == before, "initialised-receiver-gains-at-most-one")
 		}
 		if capped {
 			verifAssert(s.Len() == before, "full-receiver-unchanged")
+		}
+	}
+	if err == nil && s.IsInit() && p[2] != 1 {
+		// the receiver is an ordinary stack now: a further Marshal adds its
+		// decoded Stack as one more element
+		l := s.Len()
+		err2 := s.Marshal([]any{"AND", "again"})
+		verifAssert(err2 == nil, "second-marshal-error")
+		verifAssert(s.Len() == l+1, "second-marshal-gains-one")
+		if cfg, _ := s.config(); cfg != nil && cfg.mtx != nil {
+			free := cfg.mtx.TryLock()
+			verifAssert(free, "mutex-released")
+			if free {
+				cfg.mtx.Unlock()
+			}
 		}
 	}
 	verifReach("end")
